@@ -14,7 +14,8 @@ from .common import gt
 PROP = "C19"
 
 BOUNDS = {"quick": "R<=2, D<=3, n<=2 draws, fully symbolic Sigma (Cholesky parametrisation), mu, z",
-          "thorough": "R=3, D=3, n=3; diagonal density class as well"}
+          "thorough": "R=3, D=3, n=3; diagonal density class as well; routes at D=3",
+          "routes": "sample() on densities returned by slice / get_marginal / condition_on(.)(x) / get_density_of_linear_sum / GaussianMeasure.get_density (R<=3, D<=2 quick, D=3 thorough)"}
 ASSUMPTIONS = ["jax.random.normal(key, shape) is replaced by an arbitrary array of that shape (stub); the quality of JAX's generator is outside",
                "determinism in the key: the traced sample() is a pure function of (key, Sigma, mu) -- a jaxpr has no hidden state"]
 
@@ -140,6 +141,105 @@ def sample_after_update_case(kind, R, D, n, timeout=400):
     return Case(cid, PROP, cfg, declare, fn, claims, timeout=timeout, replay_scales=(("S_", "S2_"), [1e-4]))
 
 
+def sample_route_case(route, R, D, n, timeout=400):
+    """sample() on a density that was not built by the user but RETURNED by another library operation: the draws must follow
+    the law that operation is specified to return (oracle: spec side), i.e. x = m_r + L_r z with L_r L_r' = expected covariance"""
+    cid = f"C19/sample-route/{route}/R{R}D{D}n{n}"
+    cfg = dict(op=f"{route}, then sample", R=R, D=D, num_samples=n)
+    idx = {"slice": [R - 1, 0], "marginal": [D - 1, 0][:max(1, D - 1)], "condition": [D - 1], "linsum": None, "lambda-measure": None}[route]
+    Ro = 2 if route == "slice" else R
+    Do = {"slice": D, "marginal": len(idx or []), "condition": D - 1, "linsum": D - 1, "lambda-measure": D}[route]
+
+    def declare(b):
+        b.spd("S", R, D); b.free("mu", (R, D)); b.free("z", (n, Ro, Do))
+        if route == "condition":
+            b.free("xb", (1, 1))
+        if route == "linsum":
+            b.free("W", (1, Do, D)); b.free("bb", (1, Do))
+
+    def build(A):
+        import jax.numpy as jnp
+        factor, measure, pdf, conditional = gt()
+        if route == "lambda-measure":
+            # S plays the role of the PRECISION of a measure; its density is N(S^-1 nu, S^-1)
+            m = measure.GaussianMeasure(Lambda=A["S"], nu=A["mu"])
+            return m.get_density()
+        p = pdf.GaussianPDF(Sigma=A["S"], mu=A["mu"])
+        if route == "slice":
+            return p.slice(jnp.array(idx))
+        if route == "marginal":
+            return p.get_marginal(jnp.array(idx))
+        if route == "condition":
+            return p.condition_on(jnp.array(idx))(A["xb"])
+        if route == "linsum":
+            return p.get_density_of_linear_sum(jnp.tile(A["W"], (R, 1, 1)), jnp.tile(A["bb"], (R, 1)))
+
+    def fn(**A):
+        import jax
+        import jax.numpy as jnp
+        key = jax.random.PRNGKey(0)
+        orig = jax.random.normal
+        shape = (n, Ro, Do)
+
+        def stub_factory(zval):
+            def stub(k, shape=(), dtype=None, **kw):
+                assert tuple(shape) == tuple(zval.shape), (shape, zval.shape)
+                return zval
+            return stub
+        out = {}
+        q = build(A)
+        try:
+            jax.random.normal = stub_factory(A["z"])
+            out["x"] = q.sample(key, n)
+            jax.random.normal = stub_factory(jnp.zeros(shape))
+            out["x0"] = q.sample(key, n)
+            imp = []
+            for j in range(Do):
+                jax.random.normal = stub_factory(jnp.zeros(shape).at[:, :, j].set(1.0))
+                imp.append(q.sample(key, n))
+            out["imp"] = imp
+        finally:
+            jax.random.normal = orig
+        return out
+
+    def claims(I, O, ops):
+        S, mu, z = I["S"], I["mu"], I["z"]
+        m_exp = ops.zeros((Ro, Do)); S_exp = ops.zeros((Ro, Do, Do))
+        for r in range(Ro):
+            if route == "slice":
+                m_exp[r] = mu[idx[r]]; S_exp[r] = S[idx[r]]
+            elif route == "marginal":
+                m_exp[r] = mu[r][idx]; S_exp[r] = S[r][np.ix_(idx, idx)]
+            elif route == "condition":
+                a = [i for i in range(D) if i not in idx]
+                M, b, Sc = spec.schur_conditional(ops, mu[r], S[r], a, idx)
+                m_exp[r] = spec.mv(M, I["xb"][0]) + b; S_exp[r] = Sc
+            elif route == "linsum":
+                W = I["W"][0]
+                m_exp[r] = spec.mv(W, mu[r]) + I["bb"][0]; S_exp[r] = spec.mm(spec.mm(W, S[r]), W.T)
+            elif route == "lambda-measure":
+                Si, _ = spec.inv(ops, S[r])
+                m_exp[r] = spec.mv(Si, mu[r]); S_exp[r] = Si
+        x, x0 = O["x"], O["x0"]
+        L = ops.zeros((Ro, Do, Do))
+        for r in range(Ro):
+            for j in range(Do):
+                for i in range(Do):
+                    L[r, i, j] = O["imp"][j][0, r, i] - x0[0, r, i]
+        exp = ops.zeros((n, Ro, Do))
+        for k in range(n):
+            for r in range(Ro):
+                for i in range(Do):
+                    t = m_exp[r, i]
+                    for j in range(Do):
+                        t = t + L[r, i, j] * z[k, r, j]
+                    exp[k, r, i] = t
+        return [(f"{route}: draw[n,r] = m_r + L_r z[n,r] with m_r the mean of the law the operation is specified to return", x, exp),
+                (f"{route}: L_r L_r' = covariance of the law the operation is specified to return", np.einsum("rij,rkj->rik", L, L), S_exp)]
+
+    return Case(cid, PROP, cfg, declare, fn, claims, timeout=timeout)
+
+
 def _chol(ops, S):
     """lower Cholesky factor by the textbook recursion (oracle side)"""
     D = S.shape[0]
@@ -155,7 +255,11 @@ def _chol(ops, S):
 
 def cases(tier, seed=0):
     out = [sample_case("pdf", 2, 2, 2), sample_case("pdf", 1, 3, 2), sample_case("pdf", 2, 1, 1), sample_case("pdf", 2, 3, 1),
-           sample_case("diagpdf", 2, 2, 2), sample_after_update_case("pdf", 2, 2, 1), sample_after_update_case("diagpdf", 2, 2, 2)]
+           sample_case("diagpdf", 2, 2, 2), sample_after_update_case("pdf", 2, 2, 1), sample_after_update_case("diagpdf", 2, 2, 2),
+           sample_route_case("slice", 3, 2, 2), sample_route_case("marginal", 2, 3, 1), sample_route_case("condition", 2, 2, 2),
+           sample_route_case("linsum", 2, 2, 2), sample_route_case("lambda-measure", 2, 2, 1)]
     if tier == "thorough":
-        out += [sample_case("pdf", 3, 3, 3, timeout=1200), sample_case("pdf", 3, 2, 2), sample_case("diagpdf", 3, 3, 2), sample_case("pdf", 1, 1, 3)]
+        out += [sample_case("pdf", 3, 3, 3, timeout=1200), sample_case("pdf", 3, 2, 2), sample_case("diagpdf", 3, 3, 2), sample_case("pdf", 1, 1, 3),
+                sample_route_case("condition", 2, 3, 2, timeout=1200), sample_route_case("linsum", 2, 3, 2, timeout=1200),
+                sample_route_case("lambda-measure", 1, 3, 2, timeout=1200), sample_route_case("marginal", 3, 3, 2)]
     return out
